@@ -106,6 +106,16 @@ ApplyKeff(Lb, R, C) ==
     [b \in 1..Len(Lb[1][1]) |-> [b2 \in 1..Len(R[1][1]) |->
         GSum(Len(C), LAMBDA a : GSum(Len(C[1]), LAMBDA a2 : GSum(Len(Lb[1]), LAMBDA w :
             GMul(GMul(Lb[a][w][b], C[a][a2]), R[a2][w][b2]))))]]
+(* merge_mps_tensor_pair / merge_mpo_tensor_pair: physical indices combined row-major *)
+MergeMPS2(A0, A1) ==
+    LET d0 == Len(A0)  d1 == Len(A1)
+    IN [s \in 1..(d0 * d1) |-> [a \in 1..BondL(A0) |-> [c \in 1..BondR(A1) |->
+          GSum(BondR(A0), LAMBDA b : GMul(A0[((s - 1) \div d1) + 1][a][b], A1[((s - 1) % d1) + 1][b][c]))]]]
+MergeMPO2(W0, W1) ==
+    LET d0 == Len(W0)  d1 == Len(W1)
+    IN [s \in 1..(d0 * d1) |-> [t \in 1..(d0 * d1) |-> [a \in 1..Len(W0[1][1]) |-> [c \in 1..Len(W1[1][1][1]) |->
+          GSum(Len(W0[1][1][1]), LAMBDA b : GMul(W0[((s - 1) \div d1) + 1][((t - 1) \div d1) + 1][a][b],
+                                                W1[((s - 1) % d1) + 1][((t - 1) % d1) + 1][b][c]))]]]]
 (* inner product of two tensors of equal shape, first conjugated *)
 TDot3(X, Y) == GSum(Len(X), LAMBDA s : GSum(Len(X[1]), LAMBDA a : GSum(Len(X[1][1]), LAMBDA b : GMul(GConj(X[s][a][b]), Y[s][a][b]))))
 =============================================================================
